@@ -2,7 +2,7 @@
 import random, re
 from .common import hx, crashed, crash_sig
 from lib import vcore as V
-from . import c01, c02, c04, c08, c09, c12
+from . import c01, c02, c04, c08, c09, c11, c12
 
 ID = "C13"
 PROP_FILE = "Properties/Properties_C13.v"
@@ -29,7 +29,7 @@ def gen_cases(tier, seed):
     rng = random.Random(seed)
     per = 1500 if tier == "quick" else 30000
     cases = []
-    for mod in (c01, c02, c04, c08, c09, c12):
+    for mod in (c01, c02, c04, c08, c09, c11, c12):
         cs, _ = mod.gen_cases("quick", seed + 7)
         cs = [c for c in cs if not c.startswith("rssi")]
         cases += rng.sample(cs, min(per, len(cs)))
